@@ -5,7 +5,7 @@ Monitors: (i) covdrv: bitmask model vs the repository's coverage.cc, all
 four bases (exhaustive) + long random sequences; canonical-form hook H4 aborts
 on any non-canonical intermediate.  (ii) zwdrv: random aset expressions vs a
 Python set model through the words of the language, incl. rendering and ==."""
-import json, os, re, subprocess
+import json, os, random, re, subprocess
 from vf import common
 
 BASES = [0, (1 << 32) - 6, (1 << 63) - 6, (1 << 64) - 14]
@@ -168,6 +168,85 @@ def job_query(payload):
     return {"n": n, "nontriv": nontriv, "bad": bad[:30], "nbad": len(bad)}
 
 
+# ----------------------------------------------------------------- wide intervals
+# Sets far too large for an explicit model: sorted lists of disjoint non-adjacent runs, with the obvious interval algebra.
+def iv_norm(rs):
+    out = []
+    for a, b in sorted(r for r in rs if r[0] < r[1]):
+        if out and a <= out[-1][1]:
+            out[-1][1] = max(out[-1][1], b)
+        else:
+            out.append([a, b])
+    return [tuple(r) for r in out]
+
+
+def iv_sub(x, y):
+    out = []
+    for a, b in x:
+        cur = a
+        for c, e in y:
+            if e <= cur or c >= b:
+                continue
+            if c > cur:
+                out.append((cur, c))
+            cur = max(cur, e)
+        if cur < b:
+            out.append((cur, b))
+    return iv_norm(out)
+
+
+def iv_and(x, y):
+    return iv_norm([(max(a, c), min(b, e)) for a, b in x for c, e in y])
+
+
+WIDE = [0, 1, 2, (1 << 31) - 1, 1 << 32, (1 << 63) - 1, 1 << 63, (1 << 63) + 1, (1 << 64) - 0x1000, (1 << 64) - 2, (1 << 64) - 1]
+
+
+def job_wide(payload):
+    """`A B aset` for operands anywhere in [0, 2^64-1], in either order, and the set algebra on such sets."""
+    seed, count = payload
+    d = common.get_driver()
+    rng = random.Random(seed)
+    bad = []
+    n = 0
+
+    def num(v):
+        return rng.choice(["%d", "0x%x"]) % v
+
+    def pick():
+        return rng.choice(WIDE) if rng.random() < 0.7 else rng.getrandbits(rng.choice([20, 40, 63, 64]))
+    for _ in range(count):
+        a, b, c, e = pick(), pick(), pick(), pick()
+        x, y = iv_norm([(min(a, b), max(a, b))]), iv_norm([(min(c, e), max(c, e))])
+        tx, ty = "%s %s aset" % (num(a), num(b)), "%s %s aset" % (num(c), num(e))
+        q = ("%s %s (|A B| [A] [%s %s aset] [A B add] [A B sub] [A B overlap] [A low] [A high] [A length] [A ?empty] [A B ?overlaps] [A B ?contains]"
+             " [A %s ?contains] [A %s ?contains] [A range])" % (tx, ty, num(b), num(a), num(min(a, b)), num(max(a, b))))
+        r = d.run(q)
+        n += 1
+        w = dict(query=q)
+        if r["st"] != "done" or len(r["res"]) != 1 or r["stderr"]:
+            bad.append(("wide intervals: query failed or complained", dict(w, st=r["st"], msg=r.get("msg"), stderr=r["stderr"][:300]))); continue
+        A, Ar, U_, D_, I_, lo, hi, ln, em, ov, ct, c_lo, c_hi, rg = [v["v"] for v in r["res"][0]]
+        for what, got, want in (("aset", A, x), ("aset with the operands the other way round", Ar, x), ("add", U_, iv_norm(x + y)), ("sub", D_, iv_sub(x, y)),
+                                ("overlap", I_, iv_and(x, y))):
+            if len(got) != 1 or got[0]["t"] != "as" or aset_ranges(got[0]) != want:
+                bad.append(("wide intervals: " + what, dict(w, got=[g.get("sh") for g in got], want=[(hex(p), hex(q_)) for p, q_ in want]))); break
+        else:
+            card = sum(q_ - p for p, q_ in x)
+            if [int(v["v"]) for v in lo] != ([x[0][0]] if x else []) or [int(v["v"]) for v in hi] != ([x[-1][1]] if x else []):
+                bad.append(("wide intervals: low / high", dict(w, low=[v["v"] for v in lo], high=[v["v"] for v in hi])))
+            if [int(v["v"]) for v in ln] != [card]:
+                bad.append(("wide intervals: length", dict(w, got=[v["v"] for v in ln], want=card)))
+            if (len(em) == 1) != (not x) or (len(ov) == 1) != bool(iv_and(x, y)) or (len(ct) == 1) != (not iv_sub(y, x)):
+                bad.append(("wide intervals: ?empty / ?overlaps / ?contains", dict(w, empty=len(em), overlaps=len(ov), contains=len(ct))))
+            # (the single address 2^64-1 is itself an interval ending at 2^64, beyond what the statement scopes: not asked about)
+            if (len(c_lo) == 1) != bool(x) or (len(c_hi) != 0 and max(a, b) != (1 << 64) - 1):
+                bad.append(("wide intervals: membership of the end points (half-open)", dict(w, low_end=len(c_lo), high_end=len(c_hi))))
+            if [aset_ranges(v) for v in rg] != [[t] for t in x]:
+                bad.append(("wide intervals: range", dict(w, got=[v.get("sh") for v in rg])))
+    return {"n": n, "nontriv": n, "bad": bad[:30], "nbad": len(bad)}
+
+
 def run(chk):
     quick = chk.tier == "quick"
     rng = chk.rng()
@@ -225,9 +304,22 @@ def run(chk):
             chk.violation("aset-word:%s" % what, w)
         if r["nbad"] > len(r["bad"]):
             chk._nviol += r["nbad"] - len(r["bad"])
+    wide_n = 0
+    for r in pool.map(job_wide, [(chk.seed * 7919 + i, 60) for i in range(16 if quick else 400)]):
+        if "crash" in r:
+            chk.crash_violation(r, "query"); continue
+        if "timeout" in r or "harness_error" in r:
+            chk.inconc(str(r)[:300]); continue
+        wide_n += r["n"]
+        for what, w in r["bad"]:
+            chk.violation("aset-word:%s" % what, w)
+        if r["nbad"] > len(r["bad"]):
+            chk._nviol += r["nbad"] - len(r["bad"])
+    qn += wide_n
     hs = pool.hook_stats()
     pool.finish()
     chk.cov.update({
+        "wide_interval_cases": wide_n,
         "evaluations": tot["transitions"] + tot["checks"] + tot["pairs"] + qn,
         "distinct_nontrivial": (1 << U) * len(BASES) + nontriv,
         "rule": "exhaustive part: every subset of a %d-address universe (built by the real add()) x every add/remove/is_covered/is_overlap/"
